@@ -432,6 +432,11 @@ def plan(tier, seed):
     plans.append((corner("unit8", prefix=[], qubits=3, name="fresh-int-ids-from-0", max_amp=20.0, qid_alias={"q0": 0, "q1": 1, "q2": 2}),
                   _alphabet(FRESH_CORE + [("declare", "k", "raman_local", "q1"), ("target", "q0", "l"), ("add", A.C52, "l")], FRESH_FAULTS,
                             {k: v for k, v in RO.items() if "draw" not in k}), 3))
+    # collections of ids handed over as dict views (register.qubits.keys()): valid Collections that cannot be copied
+    plans.append((corner("unit8", prefix=[], qubits=3, container="keys", name="fresh-id-collections-given-as-dict-views", max_amp=20.0),
+                  _alphabet(FRESH_CORE + [("declare", "k", "raman_local", ["q1"]), ("target", ["q0", "q1"], "l"), ("target_kw", ["q2"], "l"), ("slm_kw", ["q1", "q2"]),
+                                          ("phase_shift", 1.0, ("q0",), "digital")], FRESH_FAULTS,
+                            {k: v for k, v in RO.items() if "draw" not in k}), 2 if tier == "quick" else 3))
     plans.append((corner("unit8", prefix=[], qubits=3, reusable=False, name="fresh-channels-not-reusable", max_amp=20.0),
                   _alphabet(FRESH_NR_CORE, FRESH_NR_FAULTS, {k: v for k, v in RO.items() if "draw" not in k}), 2))
     plans.append((corner("unit", prefix=[("slm", ["q0"], "dmm_0")] + A.GL, qubits=3, over={"dmm": dict(clock=4, min_dur=16, max_dur=100)},
